@@ -775,6 +775,60 @@ Proof.
     + destruct (beq reason []); [reflexivity|]. destruct (beq reason CLIENT_MATCH); reflexivity.
 Qed.
 
+(* ---- the failure reason of a poll response (decode_poll_response_reason) *)
+Lemma decode_poll_response_reason_eq : forall v,
+  decode_poll_response_reason v =
+  if typed_okb poll_resp_schema v && negb (beq (fstr v "Status") []) then
+    if beq (fstr v "Status") CLIENT_MATCH then
+      if beq (fstr v "Offer") [] then PRErr
+      else PROk (fstr v "Offer", nat_default (fstr v "NAT"), fstr v "RelayURL")
+    else if beq (fstr v "Status") NO_MATCH then PROk ([], nat_default (fstr v "NAT"), fstr v "RelayURL")
+    else PRReason (fstr v "Status") (nat_default (fstr v "NAT")) (fstr v "RelayURL")
+  else PRErr.
+Proof.
+  intros v. unfold decode_poll_response_reason, fstr, nat_default.
+  rewrite unmarshal_eq by apply nodup_poll_resp.
+  destruct (typed_okb poll_resp_schema v); [|reflexivity].
+  cbv [map poll_resp_schema fst snd fieldval]. cbn [andb].
+  destruct (beq (last_str (hits (bs "Status") (entries v)) []) []); reflexivity.
+Qed.
+
+(* it is the decoder of the property with one error class split off *)
+Theorem poll_response_reason_refines : forall v,
+  decode_poll_response v = match decode_poll_response_reason v with PROk r => Ok r | _ => Err end.
+Proof.
+  intros v. rewrite decode_poll_response_eq, decode_poll_response_reason_eq.
+  destruct (typed_okb poll_resp_schema v && negb (beq (fstr v "Status") [])); [|reflexivity].
+  destruct (beq (fstr v "Status") CLIENT_MATCH); [destruct (beq (fstr v "Offer") []); reflexivity|].
+  destruct (beq (fstr v "Status") NO_MATCH); reflexivity.
+Qed.
+
+(* the reason surfaced is the message's Status member, byte for byte, and only for a failure status *)
+Theorem poll_response_reason_is_status : forall v s n u,
+  decode_poll_response_reason v = PRReason s n u ->
+  s = fstr v "Status" /\ n = nat_default (fstr v "NAT") /\ u = fstr v "RelayURL" /\
+  s <> [] /\ s <> CLIENT_MATCH /\ s <> NO_MATCH.
+Proof.
+  intros v s n u. rewrite decode_poll_response_reason_eq.
+  destruct (typed_okb poll_resp_schema v); cbn [andb]; [|discriminate].
+  destruct (beq (fstr v "Status") []) eqn:S0; cbn [negb]; [discriminate|]. apply beq_neq in S0.
+  destruct (beq (fstr v "Status") CLIENT_MATCH) eqn:S1; [destruct (beq (fstr v "Offer") []); discriminate|]. apply beq_neq in S1.
+  destruct (beq (fstr v "Status") NO_MATCH) eqn:S2; [discriminate|]. apply beq_neq in S2.
+  intros H. injection H as <- <- <-. repeat split; assumption.
+Qed.
+
+(* round trip of the failure reason: whatever the broker gave as the reason comes back as the reason *)
+Theorem roundtrip_poll_response_reason : forall offer nat relay reason,
+  reason <> [] -> reason <> CLIENT_MATCH -> reason <> NO_MATCH ->
+  decode_poll_response_reason (encode_poll_response offer false nat relay reason) = PRReason reason NAT_UNKNOWN [].
+Proof.
+  intros offer nat relay reason H0 H1 H2. rewrite decode_poll_response_reason_eq.
+  unfold encode_poll_response; eval_enc.
+  rewrite (beq_nil_false _ H0). cbn [negb].
+  destruct (beq reason CLIENT_MATCH) eqn:E1; [apply beq_eq in E1; contradiction|].
+  destruct (beq reason NO_MATCH) eqn:E2; [apply beq_eq in E2; contradiction|]. reflexivity.
+Qed.
+
 Theorem roundtrip_answer_request : forall answer sid,
   answer <> [] -> sid <> [] ->
   decode_answer_request (encode_answer_request answer sid) = Ok (answer, sid).
